@@ -21,6 +21,22 @@ impl<'a> RangePruner<'a> {
         ) {
             return None;
         }
+        // Stored integral values live in the sign-flipped i64 lane; a fractional literal would be
+        // encoded in the f64 lane, which does not order against it. Move the bound to the
+        // neighbouring integer (x > 2.5 <=> x >= 3, x < -0.5 <=> x <= -1 for integral x).
+        let int_bound;
+        let (op, value) = match value.as_f64() {
+            Some(f) if f.is_finite() && f.fract() != 0.0 => {
+                if matches!(op, CompareOp::Gt | CompareOp::Gte) {
+                    int_bound = crate::engine::types::ScalarValue::Int64(f.ceil() as i64);
+                    (&CompareOp::Gte, &int_bound)
+                } else {
+                    int_bound = crate::engine::types::ScalarValue::Int64(f.floor() as i64);
+                    (&CompareOp::Lte, &int_bound)
+                }
+            }
+            _ => (op, value),
+        };
         match self
             .artifacts
             .load_zone_surf(args.segment_id, args.uid, args.column)
